@@ -52,7 +52,17 @@ from ..refmodel import measure_table as mt
 LEVEL = "exploration"
 TOL = dict(rtol=1e-9, atol=1e-12)
 TOL_EV = dict(rtol=1e-6, atol=1e-8)
-TOL_EV_ITER = dict(rtol=2e-5, atol=2e-5)     # N >= 21: see measure_table
+
+
+def _tol_ev_iter(n, W):
+    """N >= 21 (see measure_table, flag simple_ev): the library shifts by
+    sigma = N^2 (W^2 for the n.s.i. variant), so the accuracy ARPACK reaches
+    with tol=1e-8 degrades like sigma; calibrated against dense eigh
+    (3e-6 at N=21, 2e-5 at 150, 5e-4 at 300 ~ 5e-9*N^2)."""
+    t = 4e-8 * max(float(n), float(W)) ** 2
+    return dict(rtol=t, atol=t)
+
+
 TOL_F32 = dict(F32)
 JITTER = 1e-11
 
@@ -319,7 +329,7 @@ def _tol_of(m, n=0, W=1.0):
     if m is None:
         return TOL
     if m.has("simple_ev"):
-        return TOL_EV if n <= 20 else TOL_EV_ITER
+        return TOL_EV if n <= 20 else _tol_ev_iter(n, W)
     if m.has("cancel"):
         return dict(rtol=1e-9, atol=1e-12 * max(1.0, float(W) ** 3))
     if m.has("f32"):
